@@ -26,6 +26,14 @@ def load_templates():
                   text=WL.GEO_BASE + 'Number of Segments, 2\nGradients, 65, 40\nThicknesses, 1.2, 1\n'))
     t.append(dict(name='geo_sf_sorc_3seg', kind='geo', cost='fast',
                   text=WL.GEO_BASE_2 + 'Number of Segments, 3\nGradients, 70, 50, 35\nThicknesses, 1, 1, 1\n'))
+    # inputs that say almost nothing and rely on the declared defaults: whatever an earlier run leaves behind in a default
+    # object shows here
+    t.append(dict(name='geo_minimal_elec', kind='geo', cost='fast',
+                  text='Reservoir Model, 4\nReservoir Depth, 2.5\nEnd-Use Option, 1\nPower Plant Type, 1\nPrint Output to Console, 0\n'))
+    t.append(dict(name='geo_minimal_heat', kind='geo', cost='fast',
+                  text='Reservoir Model, 3\nReservoir Depth, 3\nEnd-Use Option, 2\nPrint Output to Console, 0\n'))
+    t.append(dict(name='geo_minimal_2seg', kind='geo', cost='fast',
+                  text='Reservoir Model, 4\nReservoir Depth, 3\nNumber of Segments, 2\nThickness 1, 1.5\nEnd-Use Option, 1\nPower Plant Type, 2\nPrint Output to Console, 0\n'))
     for n, cost in (('example4.txt', 'fast'), ('example13.txt', 'fast'), ('example5.txt', 'fast'), ('example3.txt', 'fast'),
                     ('example10_HP.txt', 'fast'), ('example11_AC.txt', 'fast'), ('S-DAC-GT.txt', 'fast'), ('example2.txt', 'fast'),
                     ('MC_Fervo_Norbeck_Latimer_2024.txt', 'fast'),
